@@ -30,7 +30,7 @@ theorem rest_takeLine (p : Parser) (e : Nat) : rest (takeLine p e) = (rest p).dr
   unfold rest
   rw [takeLine_buf, takeLine_bix, List.drop_drop]
 
-/-- a complete line in the buffer: it is processed (or passed over, if it does not fit), the automaton's
+/-- a complete line in the buffer: it is processed, the automaton's
 pending line is flushed -/
 theorem line_spec (p : Parser) (A : Abs) (h : Pre p A) (hp : A.sc.pend = false) (e : Nat)
     (he : eolR (rest p) = some e) (hlt : e < (rest p).length) :
@@ -59,7 +59,7 @@ theorem line_spec (p : Parser) (A : Abs) (h : Pre p A) (hp : A.sc.pend = false) 
     have hnb3 : ∀ c ∈ d :: r', c ≠ BSL := fun c hc => h.nobsl c (by rw [← hsplit]; simp [hc])
     have tl := takeLine_spec p A h.rel e
     obtain ⟨q', hbook, hrel, hbuf, hbix⟩ := procStep_spec (takeLine p e) (runA A ((rest p).take e))
-      (by rw [hrun]; exact tl.1) (by rw [hrun]; exact tl.2)
+      tl.1 (by rw [hrun]; exact tl.2)
       (by rw [hrun, takeLine_comp]; exact h.rel.comp) (by rw [hrun, takeLine_log]; exact h.rel.log) hu
     have hrest : rest q' = d :: r' := by
       unfold rest; rw [hbuf, hbix]; exact hrq
